@@ -138,6 +138,12 @@ func runCrash(c CrashCase) (string, string, bool, int) {
 		return "C14:crash:set-failed", seterr, false, acks
 	}
 	killed := !done
+	if !killed && werr != nil && c.Kill == "delay" && strings.Contains(werr.Error(), "signal: killed") {
+		// the delayed kill arrived after the worker had reported "done" and before it had exited: every
+		// store was acknowledged, the kill interrupted nothing (seen once under load in the thorough tier,
+		// where it was reported as a worker failure)
+		werr = nil
+	}
 	if !killed && werr != nil {
 		return "harness", fmt.Sprintf("worker failed: %v", werr), false, acks
 	}
